@@ -112,6 +112,31 @@ def oracle_c02(r):
         out.append((cls, f"final gradual value differs from the full calculation: {vals[-1]} vs {r['full']}"))
     if not vals and r["total"] > 0:
         out.append((None, f"no values produced although the map has {r['total']} countable objects"))
+    out += preset_msgs(r, values=True, protocol=True)
+    return out
+
+
+def preset_msgs(r, values=True, protocol=True):
+    """a Difficulty that already carries passed_objects(k): the calculator yields as many values as it
+    announced (never more than the map holds), len counts down, value i is one-shot passed_objects(i)"""
+    p = r.get("preset")
+    if not p:
+        return []
+    pre = f"Difficulty with passed_objects({p['k']}) preset: "
+    if "panic" in p:
+        return [(None, pre + "panicked: " + p["panic"])]
+    out = []
+    if protocol:
+        if p["len0"] > max(r["total"], 1):
+            out.append((None, pre + f"len() at creation is {p['len0']} but the map has {r['total']} countable objects"))
+        if p["n"] != p["len0"]:
+            out.append((None, pre + f"announced len {p['len0']} but produced {p['n']} values"))
+        if p["bad_len"] is not None:
+            out.append((None, pre + f"len() after {p['bad_len']} next() calls is not the announced {p['len0']} minus {p['bad_len']}"))
+        if not p["after_none"]:
+            out.append((None, pre + "a call after exhaustion returned Some"))
+    if values and p["bad_val"] is not None:
+        out.append((None, pre + f"value #{p['bad_val']} differs from one-shot passed_objects({p['bad_val']})"))
     return out
 
 
@@ -128,6 +153,7 @@ def oracle_c15(r):
     if r.get("wrapper_eq") is False:
         out.append((None, f"the mode-agnostic GradualDifficulty (next / nth / len / size_hint) differs from the mode's own "
                           f"calculator on the ops {r.get('wrapper_ops')}"))
+    out += preset_msgs(r, values=False, protocol=True)
     if "vals" in r:
         n = len(r["vals"])
         for i, l in enumerate(r["lens"]):
@@ -246,6 +272,8 @@ def run(chk, binary, count, max_objects, oracles, model=True):
         chk.count([r["map"], r["settings"], r["mode"]], nontrivial(r))
         chk.dist(f"grad.mode={MODES[r['mode']]}{'(convert)' if r['src_mode'] != r['mode'] else ''}")
         chk.dist(f"grad.shape={r['shape']}")
+        if r.get("preset"):
+            chk.dist("grad.preset_passed_objects")
         t = r.get("total", 0)
         chk.dist("grad.total=" + ("0" if t == 0 else "1-3" if t <= 3 else "4-20" if t <= 20 else ">20"))
         for key in ("panic_oneshot", "panic_view"):
